@@ -172,14 +172,24 @@ def parse_json(text, tables):
 
 def parse_junit(text, tables):
     facts = []
-    info = {"wellformed": True, "testcases": 0, "status_mismatch": 0}
+    info = {"wellformed": True, "testcases": 0, "status_mismatch": 0, "totals_mismatch": 0}
     if not text.strip():
         return facts, info
     try:
         root = ET.fromstring(text)
     except Exception:
-        return facts, {"wellformed": False, "testcases": 0, "status_mismatch": 0}
+        return facts, {"wellformed": False, "testcases": 0, "status_mismatch": 0, "totals_mismatch": 0}
     for suite in root.iter("testsuite"):
+        # the suite's own totals must agree with its entries
+        cases = list(suite.iter("testcase"))
+        nfail = sum(1 for c in cases if c.find("failure") is not None)
+        nerr = sum(1 for c in cases if c.find("error") is not None)
+        try:
+            if int(suite.get("tests", "-1")) != len(cases) or int(suite.get("failures", "-1")) != nfail \
+                    or int(suite.get("errors", "-1")) != nerr:
+                info["totals_mismatch"] += 1
+        except ValueError:
+            info["totals_mismatch"] += 1
         for case in suite.iter("testcase"):
             info["testcases"] += 1
             if suite.get("name") == "Errors":
